@@ -492,9 +492,72 @@ func (c *nonNegCtx) nonNeg(v ssa.Value, at ssa.Instruction, depth int) bool {
 	return r
 }
 
+// guardNonNeg: `at` is reachable only through the edge of a dominating test `v >= k` (k >= 0), `v > k` (k >= -1) or the
+// failing edge of `v < k`, `v <= k`, on a value that is the same source as v (same value, two loads of one location, or
+// the same value under conversions that do not change it).
+func (c *nonNegCtx) guardNonNeg(v ssa.Value, at ssa.Instruction) bool {
+	f := at.Parent()
+	if f == nil {
+		return false
+	}
+	same := func(a, b ssa.Value) bool {
+		a, b = stripValueConv(a), stripValueConv(b)
+		return a == b || sameSource(a, b)
+	}
+	for _, blk := range f.Blocks {
+		iff := ifOf(blk)
+		if iff == nil {
+			continue
+		}
+		bo, ok := iff.Cond.(*ssa.BinOp)
+		if !ok || !same(bo.X, v) {
+			continue
+		}
+		k, ok := intConst(bo.Y)
+		if !ok {
+			continue
+		}
+		var negOnTrue, okOp bool
+		switch bo.Op {
+		case token.LSS:
+			negOnTrue, okOp = true, k >= 0 // true edge: v < k may be negative; false edge: v >= k >= 0
+		case token.LEQ:
+			negOnTrue, okOp = true, k >= -1
+		case token.GEQ:
+			negOnTrue, okOp = false, k >= 0
+		case token.GTR:
+			negOnTrue, okOp = false, k >= -1
+		}
+		if okOp && guardedBy(c.p, f, at, guard{iff, negOnTrue}) {
+			return true
+		}
+	}
+	return false
+}
+
+// stripValueConv removes conversions that preserve the value.
+func stripValueConv(v ssa.Value) ssa.Value {
+	for {
+		switch x := v.(type) {
+		case *ssa.Convert:
+			if valuePreserving(x.X.Type(), x.Type()) {
+				v = x.X
+				continue
+			}
+		case *ssa.ChangeType:
+			v = x.X
+			continue
+		}
+		return v
+	}
+}
+
 func (c *nonNegCtx) nonNeg0(v ssa.Value, at ssa.Instruction, depth int) bool {
 	if depth > 8 {
 		return false
+	}
+	if at != nil && depth < 4 && c.guardNonNeg(v, at) {
+		return true
 	}
 	switch x := v.(type) {
 	case *ssa.Const:
@@ -502,10 +565,16 @@ func (c *nonNegCtx) nonNeg0(v ssa.Value, at ssa.Instruction, depth int) bool {
 		return ok && k >= 0
 	case *ssa.Convert:
 		if b, ok := x.X.Type().Underlying().(*types.Basic); ok && b.Info()&types.IsUnsigned != 0 {
-			// unsigned -> signed of a strictly wider type, or any unsigned of <= 32 bits into int (64-bit int assumed on the
-			// analysed configuration; GOARCH=386 is re-checked in the thorough tier for build only)
-			switch b.Kind() {
-			case types.Uint8, types.Uint16, types.Uint32:
+			// unsigned -> a strictly wider signed type (64-bit int assumed on the analysed configuration; GOARCH=386 is
+			// re-checked in the thorough tier for build only), or unsigned -> unsigned
+			if tb, ok := x.Type().Underlying().(*types.Basic); ok && tb.Info()&types.IsUnsigned != 0 {
+				return true
+			}
+			return valuePreserving(x.X.Type(), x.Type())
+		}
+		// signed -> signed: a narrowing conversion may change the sign
+		if !valuePreserving(x.X.Type(), x.Type()) {
+			if tb, ok := x.Type().Underlying().(*types.Basic); ok && tb.Info()&types.IsUnsigned != 0 {
 				return true
 			}
 			return false
